@@ -199,6 +199,36 @@ def run_check(pid, tier, replay_case=None, quiet=False):
     with open(out) as f:
         rep = json.load(f)
     os.remove(out)
+    # additional parts of the same property living in other packages: their reports are merged
+    for part in cfg.get("parts", []):
+        env2 = dict(env)
+        out2 = out + "." + part["test"]
+        env2["VERIF_OUT"] = out2
+        p2 = go_test(ov, part["pkg"], part["test"], env2, int(budget * 4 + 1800))
+        with open(os.path.join(outdir, "%s.%s.%s.log" % (pid, tier, part["test"])), "w") as f:
+            f.write(p2.stdout)
+        if not os.path.exists(out2):
+            print(p2.stdout[-4000:])
+            bb = "[build failed]" in p2.stdout or "[setup failed]" in p2.stdout
+            print(("BUILD-BROKEN" if bb else "TOOL-ERROR") + ": part %s of %s produced no report" % (part["test"], pid))
+            return 2
+        with open(out2) as f:
+            rep2 = json.load(f)
+        os.remove(out2)
+        c1, c2 = rep["coverage"], rep2["coverage"]
+        for k, v in c2.items():
+            if isinstance(v, bool):
+                c1[k] = c1.get(k, True) and v
+            elif isinstance(v, (int, float)) and isinstance(c1.get(k, 0), (int, float)):
+                c1[k] = c1.get(k, 0) + v
+            elif isinstance(v, list):
+                c1[k] = (c1.get(k) or []) + v
+            elif k == "rule":
+                c1[k] = c1.get(k, "") + " || " + part["test"] + ": " + v
+            else:
+                c1.setdefault(k, v)
+        rep["violations_list"] = (rep.get("violations_list") or []) + (rep2.get("violations_list") or [])
+        rep["assumptions"] = (rep.get("assumptions") or []) + (rep2.get("assumptions") or [])
     known = [k for k in known_findings() if k.get("property") == pid and k.get("status", "known") == "known"]
     unlisted = []
     listed = {}
@@ -285,7 +315,7 @@ def setup():
         print("BUILD-BROKEN:", e)
         return 2
     env = goenv()
-    pkgs = sorted({c["pkg"] for c in checks().values()})
+    pkgs = sorted({c["pkg"] for c in checks().values()} | {p["pkg"] for c in checks().values() for p in c.get("parts", [])})
     cmd = ["go", "test", "-tags", "verif", "-overlay", ov, "-vet=off", "-count=1", "-run", "^$", *pkgs]
     p = subprocess.run(cmd, cwd=REPO, env=env)
     return 0 if p.returncode == 0 else 2
